@@ -281,6 +281,9 @@ class Interp:
             return z3.BoolVal(False)      # list == tuple is False in Python
         if isinstance(ka, K.Set) and isinstance(kb, K.Set) and ka == kb:
             return a.terms[1] == b.terms[1]
+        if isinstance(ka, (K.Map, K.Fun)) and ka == kb and self.spec:
+            # representation equality (implies Python ==); used in specs to say "unchanged"
+            return z3.And(*[x == y for x, y in zip(a.terms, b.terms)])
         if ka == kb and ka.nleaves() == 1:
             return a.t == b.t
         if isinstance(ka, (K._Int, K._Bool)) and isinstance(kb, (K._Int, K._Bool)):
@@ -404,7 +407,23 @@ class Interp:
         if key not in self.p.heap:
             self.p.heap[key] = [z3.Const('H0!%s!%d' % (key, i), z3.ArraySort(z3.IntSort(), s))
                                 for i, s in enumerate(kind.leaf_sorts())]
+            self.assume_field_valid(kind, self.p.heap[key])
         return self.p.heap[key]
+
+    def assume_field_valid(self, kind, arrs):
+        """Type invariants of a whole heap field (all objects), needed under quantifiers."""
+        k, off = (kind.inner, 1) if isinstance(kind, K.Opt) else (kind, 0)
+        o = self.p.fresh('hv!o', z3.IntSort())
+        if isinstance(k, K.Seq):
+            self.p.assume(z3.ForAll([o], z3.Select(arrs[off], o) >= 0))
+        elif isinstance(k, K.Set):
+            size = z3.Select(arrs[off], o)
+            xs = [self.p.fresh('hv!x', srt) for srt in k.elem.leaf_sorts()]
+            mem = K.nsel(z3.Select(arrs[off + 1], o), xs)
+            self.p.assume(z3.ForAll([o], size >= 0))
+            self.p.assume(z3.ForAll([o] + xs, z3.Implies(mem, size > 0)))
+        elif isinstance(k, K.Map):
+            self.p.assume(z3.ForAll([o], z3.And(z3.Select(arrs[off], o) >= 0, z3.Select(arrs[off + 1], o) >= 0)))
 
     def heap_read(self, ref, key, kind, heap=None):
         if heap is None:
@@ -648,7 +667,15 @@ class Interp:
             return K.vtuple(K.tuple_items(a) + K.tuple_items(b))
         if isinstance(ka, K.Set) and isinstance(kb, K.Set) and ka == kb:
             if isinstance(op, ast.Sub):
-                raise Unsupported('set difference value (size unknown)')
+                xs = [self.p.fresh('sd!x', srt) for srt in ka.elem.leaf_sorts()]
+                body = z3.And(K.nsel(a.terms[1], xs), z3.Not(K.nsel(b.terms[1], xs)))
+                for bv in reversed(xs):
+                    body = z3.Lambda([bv], body)
+                size = self.p.fresh('sd!size', z3.IntSort())
+                self.p.assume(z3.And(0 <= size, size <= a.terms[0]))
+                out = V(ka, [size, body])
+                self.assume_valid(out)
+                return out
         raise Unsupported('binop %s on %r, %r (line %s)' % (type(op).__name__, ka, kb,
                                                            getattr(node, 'lineno', '?')))
 
@@ -848,6 +875,8 @@ class Interp:
             off, fk = k.slot(key)
             self.implicit_raise(base.terms[off], 'KeyError', 'key %r' % key, node)
             return V(fk, base.terms[off + 1:off + 1 + fk.nleaves()])
+        if isinstance(k, K.Fun):
+            return K.fun_get(base, idx)
         if isinstance(k, K.Map):
             self.implicit_raise(K.map_has(base, idx), 'KeyError', 'missing dict key', node)
             v = K.map_get(base, idx)
@@ -932,7 +961,7 @@ BUILTINS = {'len', 'isinstance', 'list', 'tuple', 'set', 'dict', 'sorted', 'enum
             'reversed', 'all', 'any', 'super', 'OrderedDict', 'iter', 'type', 'min', 'max'}
 SPEC_BUILTINS = {'old', 'implies', 'iff', 'forall', 'exists', 'result', 'ite', 'dtype_is',
                  'raised', 'fresh_ref', 'range', 'live', 'key_at', 'log_len', 'distinct',
-                 'unchanged', 'const_seq', 'allocated', 'exc_attr', 'has_exc_attr', '_', 'text_type', 'to_str', 'sel', 'is_none', 'some', 'truthy'}
+                 'unchanged', 'const_seq', 'allocated', 'exc_attr', 'has_exc_attr', '_', 'text_type', 'fun', 'index_in', 'last_sorted', 'to_str', 'sel', 'is_none', 'some', 'truthy'}
 
 MODULES = {'six', 'logging', 'logger', 'models', 'collections'}
 MODULE_BUILTINS = {'six.moves.range': 'range', 'six.iteritems': 'iteritems', 'six.iterkeys': 'iterkeys',
